@@ -264,6 +264,9 @@ func CanonVal(v interface{}) string {
 	case int:
 		return fmt.Sprintf("i:%d", x)
 	case float64:
+		if x == 0 {
+			x = 0 // -0 and 0 are the same value
+		}
 		return fmt.Sprintf("f:%v", x)
 	case time.Time:
 		return fmt.Sprintf("t:%d", x.UnixNano())
